@@ -1,6 +1,7 @@
 import FimVerif.Proofs.Lemmas.StoreIdentOps
 import FimVerif.Proofs.Lemmas.StoreNidOps
 import FimVerif.Proofs.Lemmas.StoreMerge
+import FimVerif.Proofs.Lemmas.StoreRefineAll
 /-!
 # C05 — in-memory graph backends agree with each other and with the documented semantics
 
@@ -166,5 +167,63 @@ theorem merge_failure_atomic (s : Store) (g nid g2 : String) (pol : Option (List
             · rfl
             · rename_i np hnp; simp [hnp] at hf
         · rfl
+
+/-! ## both backends refine the reference model of the documented interface
+
+`AGraph.covers op`: `op` is part of the reference interface (every operation of C05's alphabet except
+`merge_nodes`, treated above; imports and clones are C04's).  `op.keepsKeys`: the operation writes neither
+`GraphID` nor `NodeID` of a stored node (outside C05's alphabet).  `outAbs` removes the `GraphID` entry from
+a returned node dictionary (the reference model has no graph id inside a graph). -/
+
+/-- **shared_refines_spec.**  One call on the shared store, addressed to graph `op.target`, returns what the
+    reference model returns on that graph's content (same value, same error kind) and leaves that graph
+    with the content the reference model computes — for every state satisfying the store invariant. -/
+theorem shared_refines_spec (op : Op) (s : Store) (h : Store.Inv s) (hc : AGraph.covers op = true) (hk : op.keepsKeys = true) :
+    outAbs (Store.step op s).1 = (AGraph.step op (Store.abs s op.other) (Store.abs s op.target)).1 ∧
+    Store.abs (Store.step op s).2 op.target = (AGraph.step op (Store.abs s op.other) (Store.abs s op.target)).2 :=
+  Store.refines_step op s h hc hk
+
+/-- lifted to all graph ids and all histories: the content of every graph after a history on the shared
+    store is what the reference model computes from the initial contents (refinement on the addressed graph,
+    frame on all others, induction over the history) -/
+theorem shared_refines_history (ops : List Op) (s : Store) (h : Store.Inv s)
+    (hops : ∀ o ∈ ops, o.WF = true ∧ AGraph.covers o = true ∧ o.keepsKeys = true) :
+    (fun g => Store.abs (Store.run ops s) g) = AGraph.runAll ops (fun g => Store.abs s g) := by
+  induction ops generalizing s with
+  | nil => rfl
+  | cons o r ih =>
+    have ho := hops o (by simp)
+    simp only [Store.run, AGraph.runAll, List.foldl_cons]
+    have := ih (Store.step o s).2 (Store.inv_step o s h ho.1) (fun o' ho' => hops o' (by simp [ho']))
+    simp only [Store.run, AGraph.runAll] at this
+    rw [this, Store.refines_stepAll o s h ho.2.1 ho.2.2]
+
+/-- **disjoint_refines_spec.**  The one-graph-per-id backend refines the same reference model on every
+    single-graph operation (its property-graph methods are the shared-store methods run on the graph stored
+    under the id; `delete_graph` is its own storage method). -/
+theorem disjoint_refines_spec (op : Op) (d : DStore.DStore) (h : DStore.Inv d) (hs : DStore.single op = true)
+    (hk : op.keepsKeys = true) :
+    outAbs (DStore.step op d).1 = (AGraph.step op AGraph.empty (DStore.abs d op.target)).1 ∧
+    DStore.abs (DStore.step op d).2 op.target = (AGraph.step op AGraph.empty (DStore.abs d op.target)).2 :=
+  DStore.refines_step op d h hs hk
+
+/-- **backends_agree.**  If the addressed graph has the same content in both stores, one call returns the
+    same result (value or error kind) on both and leaves the graph with the same content on both. -/
+theorem backends_agree (op : Op) (s : Store) (d : DStore.DStore) (hs : Store.Inv s) (hd : DStore.Inv d)
+    (hsingle : DStore.single op = true) (hk : op.keepsKeys = true)
+    (heq : Store.abs s op.target = DStore.abs d op.target) :
+    outAbs (Store.step op s).1 = outAbs (DStore.step op d).1 ∧
+    Store.abs (Store.step op s).2 op.target = DStore.abs (DStore.step op d).2 op.target := by
+  have hc : AGraph.covers op = true := by
+    simp only [DStore.single, Bool.and_eq_true] at hsingle; exact hsingle.1
+  have h1 := shared_refines_spec op s hs hc hk
+  have h2 := disjoint_refines_spec op d hd hsingle hk
+  have hO : ∀ O, AGraph.step op O (Store.abs s op.target) = AGraph.step op AGraph.empty (Store.abs s op.target) := by
+    intro O; cases op <;> simp_all [AGraph.step, DStore.single]
+  rw [hO] at h1
+  rw [heq] at h1
+  exact ⟨h1.1.trans h2.1.symm, h1.2.trans h2.2.symm⟩
+
+example : AGraph.covers (.addLink "g" "a" "has" "b" none) = true ∧ DStore.single (.unsetNodeProperty "g" "a" "p") = true := by decide
 
 end FimVerif.C05
